@@ -88,6 +88,12 @@ class Judge:
                 else:
                     self.res.fail(construct, 'guards:rejects-valid', f'"{clause}": {what} raises {p.value[0]}', loc(fi))
                 ok = False
+            elif rejected and len(p.value[1]) > 1 and isinstance(p.value[1][1], (int, str, bool)):
+                # CompilationError(message, node): the second argument is the syntax node the error is located at (its parse info
+                # is read); a position number or a name is not a node
+                self.res.fail(construct, 'guards:location', f'"{clause}": {what} is rejected, but the error is located at `{p.value[1][1]!r}`, '
+                              f'which is not a syntax node: building the CompilationError fails with AttributeError', loc(fi))
+                ok = False
             elif must_reject and not rejected:
                 self.res.fail(construct, 'guards:missing', f'acceptance rule "{clause}" is not enforced: {what} is accepted '
                               f'(`{show(p.value)[:60]}`); it must be rejected with a CompilationError', loc(fi))
@@ -506,4 +512,55 @@ def rule_targetchk(P) -> RuleResult:
         ok &= judge('group', fi, 'GROUP BY', paths, True, label + ' as a GROUP BY expression')
     if ok:
         res.ok({'site': 'new GROUP BY expressions', 'aggregate_trees_rejected': len(agg_trees)})
+    return res
+
+
+# ----------------------------------------------------------------------
+# R-AGGCOLLECT (C02): every aggregate node of a target expression is found - it is what gets allocated, updated and finalized
+
+def rule_aggcollect(P) -> RuleResult:
+    """get_columns_and_aggregates on abstract trees: the aggregates returned are *all* the aggregate nodes of the expression, one
+    entry per occurrence (two equal calls in one expression are two nodes with their own state: each must be allocated, updated and
+    finalized, or it evaluates to NULL), in left-to-right order; the columns are the column nodes not below an aggregate."""
+    res = RuleResult('R-AGGCOLLECT')
+    res.exhaustive = True
+    fi = P.func(CO, 'get_columns_and_aggregates')
+    t = Trees()
+    col = lambda n: t.node(n, 'col')
+    agg = t.node('AGG_same', 'agg', col('COL_below'))          # the same call written twice: equal nodes
+    other = t.node('AGG_other', 'agg', t.node('OP_below', 'op', col('COL_below2')))
+    c1, c2 = col('COL_a'), col('COL_b')
+    cases = {
+        'one aggregate': (t.node('ROOT1', 'op', other, t.node('CONST', 'const')), [], [other]),
+        'the same aggregate call twice': (t.node('ROOT2', 'op', agg, t.node('OP_inner', 'op', agg, t.node('CONST_b', 'const'))), [], [agg, agg]),
+        'two aggregates and the same twice': (t.node('ROOT3', 'op', other, agg, other), [], [other, agg, other]),
+        'columns only, one twice': (t.node('ROOT4', 'op', c1, t.node('OP_c', 'op', c2, c1)), [c1, c2, c1], []),
+        'a bare aggregate': (agg, [], [agg]),
+        'a bare column': (c1, [c1], []),
+    }
+
+    def on_isinstance(v, c, ex):
+        r = t.isinstance_(v, c)
+        return r if r is not NotImplemented else False
+
+    def on_call(fn, fv, rc, a, k, ex, nd):
+        return t.call(fn, rc)
+    for label, (root, want_cols, want_aggs) in cases.items():
+        for p in Engine(P, on_isinstance=on_isinstance, on_call=on_call).paths(fi, {fi.params[0]: root}):
+            got = None
+            if p.outcome == 'return' and isinstance(p.value, T) and p.value.op == 'tuple' and len(p.value.args) == 2:
+                cs, ags = p.value.args
+                if all(isinstance(x, SList) and not x.opaque_tail for x in (cs, ags)):
+                    got = (list(cs.items), list(ags.items))
+            if p.decisions or got is None:
+                raise AnalysisError(f'{fi.fq}: {label}: result not concrete on terms: {p.outcome} {show(p.value)[:80]}')
+            if got[1] != want_aggs:
+                res.fail(fi.fq, 'aggcollect:aggregates', f'{label}: the aggregate nodes found must be every aggregate node of the expression, one '
+                         f'per occurrence, left to right: {[show(x) for x in want_aggs]}; found {[show(x) for x in got[1]]}. A node that is '
+                         f'left out is never allocated, updated or finalized and evaluates to NULL', loc(fi))
+            elif sorted(map(show, got[0])) != sorted(map(show, want_cols)):
+                res.fail(fi.fq, 'aggcollect:columns', f'{label}: the columns found must be the column nodes outside aggregates '
+                         f'{[show(x) for x in want_cols]}; found {[show(x) for x in got[0]]}', loc(fi))
+            else:
+                res.ok({'function': fi.fq, 'tree': label, 'aggregates': [show(x) for x in got[1]], 'columns': [show(x) for x in got[0]]})
     return res
